@@ -1112,7 +1112,7 @@ class QueryBuilder(Selectable, Term):
         if isinstance(item, Table):
             return Joiner(self, item, how, type_label="table")
 
-        elif isinstance(item, QueryBuilder):
+        elif isinstance(item, (QueryBuilder, _SetOperation)):
             if item.alias is None:
                 self._tag_subquery(item)
             return Joiner(self, item, how, type_label="subquery")
